@@ -80,7 +80,7 @@ def _link_cfgs(tier):
         forks = {"syndrome": 2 ** (n - k), "haminv": n + 1, "brute": 1, "rminv": 1}[kind]
         if forks**nb > (600 if tier == "quick" else 6000) or nb * n > (16 if tier == "quick" else 32):
             continue
-        for chan in ("ideal", "displaced") + (("flips",) if mod[0] in ("bpsk", "qpsk") else ()):
+        for chan in ("ideal", "displaced") + (("flips",) if mod[0] in ("bpsk", "qpsk") and (nb == 1 or tier == "thorough") else ()):
             out.append(Cfg(str(code), kind, str(mod), chan, CODES_Q.index((code, kind)), MODS_Q.index(mod)))
     return out
 
@@ -137,9 +137,18 @@ def link(ctx, cfg):
         else:
             delta = ctx.reals("delta", (1, nsym), sampler=lambda r, s=float(lim) ** 0.5: r.uniform(-0.9, 0.9) * s)
             dr, di = P(delta).reshape(-1), [0] * nsym
-        for i in range(nsym):
-            # strictly inside half the minimum distance, with a 1e-6 relative margin for the float tables
-            ctx.assume(S.lt(S.add(S.mul(dr[i], dr[i]), S.mul(di[i], di[i])), lim * Fraction(999999, 1000000)))
+        # Precondition of the property: |delta| < d_min/2 (a ball).  The obligation is proved for the LARGER polyhedral set
+        #   { delta : delta.(c_j - c_i) < |c_j - c_i|^2 / 2  for all i != j }
+        # which contains that ball by the triangle lemma C09.triangle_lemma (proved per constellation), so the nonlinear ball
+        # never reaches the solver: a sound strengthening of the obligation that keeps the chain in linear real arithmetic.
+        M = len(cre)
+        for s_ in range(nsym):
+            for i in range(M):
+                for j in range(M):
+                    if i == j:
+                        continue
+                    ar, ai = cre[j] - cre[i], cim[j] - cim[i]
+                    ctx.assume(S.lt(S.add(S.mul(ar, dr[s_]), S.mul(ai, di[s_])), (ar * ar + ai * ai) / 2 * Fraction(999999, 1000000)))
         channel = LambdaChannel(lambda x, *a, **kw: x + delta)
     else:
         # at most t flipped code bits per block; for BPSK/QPSK a flipped bit is the sign flip of its component
@@ -163,6 +172,46 @@ def link(ctx, cfg):
     res = out.value[0] if isinstance(out.value, tuple) else out.value
     ctx.ensure("message_recovered", tuple(res.shape) == (1, nb * k) and SP.all_eq(P(res), P(msg)), note=f"{nb} block(s), {nsym} symbols, t={t} ({src})")
     ctx.ensure("message_unmodified", out.unmodified)
+
+
+@obligation("C09.triangle_lemma", function="kaira/modulations/base.py:BaseModulator.constellation", configs=lambda tier: list(MODS_Q), kind="custom", engine="z3-lemma")
+def triangle_lemma(spec, cfg, tier, seed):
+    """forall delta in R^2 (R for real constellations): |delta|^2 < (d_min/2)^2  =>  forall i != j: delta.(c_j - c_i) < |c_j - c_i|^2 / 2
+    on the exact rational values of the real constellation table (the set used as displacement precondition in C09.link contains the ball)"""
+    import time
+
+    import z3
+
+    t0 = time.time()
+    modulator, _ = mods.build(cfg)
+    const = modulator.constellation
+    cre = [Fraction(float(v)) for v in (const.real if const.is_complex() else const).tolist()]
+    cim = [Fraction(float(v)) for v in (const.imag.tolist() if const.is_complex() else [0.0] * len(cre))]
+    lim = dmin_sq(cre, cim) / 4
+    x, y = z3.Real("dx"), z3.Real("dy")
+    q = lambda f: z3.RealVal(f"{f.numerator}/{f.denominator}")
+    sol = z3.Solver()
+    sol.set("timeout", 60000)
+    sol.add(x * x + y * y < q(lim))
+    if not const.is_complex():
+        sol.add(y == 0)
+    bad = []
+    for i in range(len(cre)):
+        for j in range(len(cre)):
+            if i != j:
+                ar, ai = cre[j] - cre[i], cim[j] - cim[i]
+                bad.append(q(ar) * x + q(ai) * y >= q((ar * ar + ai * ai) / 2))
+    sol.add(z3.Or(bad))
+    r = sol.check()
+    res = ObResult(prop="C09", ob=f"{spec.id}/ball_inside_polyhedron", config=str(cfg), function=spec.function, engine="z3-lemma", backend="z3", kind="proof")
+    res.verdict = "discharged" if r == z3.unsat else ("refuted" if r == z3.sat else "undecided")
+    if r == z3.sat:
+        m = sol.model()
+        res.witness = {"delta": [str(m.eval(x, model_completion=True)), str(m.eval(y, model_completion=True))]}
+        res.replay_confirmed = True
+    res.detail = f"{len(cre)} points, d_min^2/4 = {float(lim):.6g}; z3 {r}"
+    res.wall_s = res.solver_s = round(time.time() - t0, 3)
+    return [res]
 
 
 # ---------------------------------------------------------------------------------------- bounded: BM in the chain
